@@ -100,6 +100,9 @@ func sgRender(defs []sgDef, comments bool) string {
 				b.WriteString("// @constructor\n")
 			case 2:
 				b.WriteString("// plain comment before a definition; with punctuation = # : ?\n")
+			case 3:
+				// one word, not ASCII (a word is counted in characters, not in bytes)
+				b.WriteString([]string{"// Сообщения\n", "//———\n", "// 🎯\n", "// naïveté\n"}[(i/4)%4])
 			}
 		}
 		fmt.Fprintf(&b, "%s#%08x", d.Name, d.crc())
